@@ -80,6 +80,8 @@ def ev(e, env, opaque):
         for op, c in zip(e.ops, e.comparators):
             right = ev(c, env, opaque)
             if left is TOP or right is TOP:
+                if '__assume__' in opaque:
+                    return opaque['__assume__'](e)
                 return TOP
             if isinstance(op, ast.Lt):
                 r = left < right
@@ -192,3 +194,19 @@ def run(stmts, env, opaque, on_stmt):
         else:
             raise Unknown('statement not understood by the index evaluator: ' + src(st).split('\n')[0][:60])
     return cur
+
+
+def run_while(loop, env, opaque, on_stmt=lambda s, e: None, max_iter=64):
+    """Interpret a while loop; returns the environment at its exit.  A test of unknown value raises Unknown."""
+    cur = dict(env)
+    for _ in range(max_iter):
+        t = ev(loop.test, cur, opaque)
+        if t is TOP:
+            raise Unknown('loop test of unknown value: ' + src(loop.test)[:60])
+        if not t:
+            return cur
+        nxt = run(loop.body, cur, opaque, on_stmt)
+        if nxt is None:
+            raise Unknown('loop body leaves the loop: ' + src(loop.test)[:40])
+        cur = nxt
+    raise Unknown('loop does not end within %d passes' % max_iter)
